@@ -569,6 +569,24 @@ def oracle(case, d, report, check_mesh=True):
         report(sig, f'read_directory(time_series=True) over steps {steps} raises {err}', {'error': err, 'steps': steps})
         series = {'raises': err}
     else:
+        # the series of every variable is the STACK of the single-step readings: an array (n_step, n_row, width) - checked
+        # before anything is indexed (a reader that returns a plain (n_row, width) table for a one-step series must be
+        # reported, not crash the harness)
+        bad_shape = []
+        for key, tab in (('nodal', fd.nodal_data), ('elem', fd.elemental_data)):
+            for n, v in tab.items():
+                if n == 'NODE':
+                    continue
+                blocks = list(v.values()) if hasattr(v, 'values') and not hasattr(v, 'time_series') else [v]
+                for b in blocks:
+                    sh = np.shape(np.asarray(b.data, dtype=object)) if getattr(b.data, 'dtype', None) == object else np.shape(b.data)
+                    if len(sh) != 3 or sh[0] != len(steps):
+                        bad_shape.append((key, n, list(sh)))
+        if bad_shape:
+            report('series-not-stack:shape', f'read_directory(time_series=True) over steps {steps}: variable {bad_shape[0][1]!r} '
+                   f'({bad_shape[0][0]}) has shape {bad_shape[0][2]}, not ({len(steps)}, rows, width)',
+                   {'steps': steps, 'bad': bad_shape[:5]})
+            return singles, latest, {'raises': 'bad-shape'}
         series = observe(fd, True)
         if series['steps'] != steps:
             report('series-steps-not-ascending', f"settings['time_steps'] = {series['steps']} for steps {steps}",
